@@ -32,10 +32,23 @@ Not decided: Docker's / pack's own sub-parsing of option values (e.g. `=` inside
 The obligations are stated on semantics, not on one spelling (rules/C17_helpers.py):
   * argv = ordered contributions to the Command (`arg` / `args`, made directly, in private helpers or closures, row by
     row for loops over literal tables, or through a Vec filled with push / extend and handed over whole); iterated
-    arguments are decomposed with the iterator algebra (flat_map, Option::into_iter, bool::then, flatten ...)
+    arguments are decomposed with the iterator algebra (flat_map, Option::into_iter, bool::then, flatten,
+    slice::from_ref ...); a helper that loops over an iterable parameter (`fn options(name, values)`) is a loop over
+    the collection the caller's pipeline ranges over, its element the pipeline's element (`f(element)` for `.map(f)`);
+    an element of a collection emitted outside a loop over that collection is the first element only (R8)
   * forwarding = effects of the builder methods reached from start_container / build_internal with arguments in the
     entry function's terms; "per element" = inside a loop (`for` or `for_each`) over the whole config collection,
-    reached in every iteration and passed on every path to the command invocation, handed the element itself
+    reached in every iteration and passed on every path to the command invocation, handed the element itself; or
+    "whole" = one call, outside any loop and on every path to the invocation, of a *bulk* setter (R6: it stores every
+    element of its iterable parameter) that is handed the whole collection (for buildpacks: mapped 1:1 through the
+    resolving closure, whose results are judged like the per-element arguments)
+  * which builder method feeds an option is decided by what the method does, not by its name: the field it stores
+    (R6) is the one the conversion renders as the value of that option (R7), parameter by parameter / element
+    component by component in the option's role order (`derived_role`); the methods of the API table are held to their
+    table entry as before, any other setter with such a role to the option's canonical roles, and a table method
+    that is gone must have its exact role taken by another setter
+  * `impl From<&X> for Command` converts X like `impl From<X>`; both are held to every obligation (a by-value
+    conversion that delegates — `Self::from(&x)`, `(&x).into()` — is read through the delegation)
   * app path = phi-free alternatives of the value given to PackBuildCommand::new with private helpers inlined
   * stores = writes to `self.<field>` (assignments, container calls on `&mut self.<field>`) reached from a setter through
     helpers, delegated setters and closures, with the written values in the setter's own terms; iterables through the
@@ -89,6 +102,77 @@ COMMAND_API = {
 # options whose values carry configuration (R7)
 CONFIG_OPTIONS = {'DockerRunCommand': ('--entrypoint', '--env', '--publish', '--mount'), 'PackBuildCommand': ('--builder', '--path', '--buildpack', '--env')}
 CONTAINER_SETTERS = {'entrypoint': 'entrypoint', 'command': 'command', 'env': 'env', 'exposed_ports': 'expose_port', 'bind_mounts': 'bind_mount'}
+# what a configuration field must become on the command line: the option (or the trailing command) a forwarding setter
+# has to feed.  A setter is recognised by what it does (the field it stores is the one the conversion renders as the
+# value of that option, parameter by parameter in the option's role order), not by its name: a bulk setter
+# `envs(&config.env)` built on `extend` forwards what a loop over `env(key, value)` forwards.
+CONTAINER_TARGET = {'entrypoint': '--entrypoint', 'command': 'command', 'env': '--env', 'exposed_ports': '--publish', 'bind_mounts': '--mount'}
+BUILD_TARGET = {'env': '--env', 'buildpacks': '--buildpack'}
+CANON_ROLE = {short: {v[0]: (tuple(v[1]), v[2]) for k, v in api.items() if isinstance(v, tuple)} for short, api in COMMAND_API.items()}
+
+
+def derived_role(short, V, argv_roles):
+    """(option | 'command', role names in the order of the API sources, mode, bulk) of a judged setter of a command
+    struct: the option whose value the conversion renders from the field the setter stores, component by component;
+    bulk = the parameters are iterables whose elements are stored (all of them: judge_setter)"""
+    if V is None or not V.ok:
+        return None
+    bulk = bool(V.slots) and all(src[1][:1] == ('*',) or (V.loop_param is not None and src[0] == V.loop_param) for _, src in V.slots)
+    if short in TRAILING and V.field == TRAILING[short][1]:
+        return ('command', (), V.mode, bulk)
+    for opt, roles in sorted(argv_roles.get(short, {}).items()):
+        if not roles:
+            continue
+        rn_of = {tuple(got[1]): rn for rn, got in roles.items() if got[0] == V.field}
+        if len(rn_of) != len(roles):
+            continue
+        names = [rn_of.get(() if comp == '' else (comp,)) for comp in V.order()]
+        if None not in names and len(names) == len(roles):
+            return (opt, tuple(names), V.mode, bulk)
+    return None
+
+
+class Setters:
+    """verdicts (H.judge_setter) and derived roles of the `&mut self` methods of the command structs, by method path"""
+
+    def __init__(self, prog, sl, argv_roles):
+        self.prog, self.sl, self.argv_roles, self.cache = prog, sl, argv_roles, {}
+
+    def verdict(self, f):
+        if f.path not in self.cache:
+            self.cache[f.path] = H.judge_setter(self.prog, self.sl, f)
+        return self.cache[f.path]
+
+    def role(self, path):
+        """canonical role of the setter at `path` (a command-struct method), or None"""
+        f = self.prog.fns.get(path)
+        if f is None or not f.args or not f.args[0].startswith('&mut ') or f.argc < 2:
+            return None
+        short = f.args[0][5:].split('::')[-1]
+        r = derived_role(short, self.verdict(f), self.argv_roles)
+        if r is None:
+            return None
+        canon = CANON_ROLE.get(short, {}).get(r[0])
+        if canon is None or (tuple(r[1]), r[2]) != canon:
+            return None
+        return r
+
+    def feeding(self, effs, prefix, legacy, opt):
+        """the effects (builder-method calls, kind `<prefix><method>`) that feed option `opt`: the method of the API
+        table, and every method whose stored field the conversion renders as the value of `opt` in the canonical roles"""
+        out = []
+        for e in effs:
+            if not e.kind.startswith(prefix) or e.call is None:
+                continue
+            r = self.role({'RUN:': RUNC, 'PACK:': PACKC}[prefix] + e.kind[len(prefix):])
+            if e.kind == prefix + legacy or (r is not None and r[0] == opt):
+                out.append(e)
+        return out
+
+    def bulk(self, e):
+        pre = e.kind.split(':')[0] + ':'
+        r = self.role({'RUN:': RUNC, 'PACK:': PACKC}[pre] + e.kind[len(pre):]) if pre in ('RUN:', 'PACK:') else None
+        return bool(r and r[3] and r[2] == 'add')
 
 
 def run(ctx, rep):
@@ -100,10 +184,15 @@ def run(ctx, rep):
                  ('R8', 'options are emitted whenever the field is set, once per element')):
         rep.rule(r, d)
     rep.not_decided = ['docker/pack sub-parsing of option values ("=" in --env values, "," in mount paths)']
-    cmds = from_command_fns(prog)
+    # `impl From<X> for Command` and `impl From<&X> for Command` both convert the struct X (a conversion that only
+    # borrows reads the same fields); each one is held to every obligation
+    convs = sorted((t.lstrip('&').strip(), t, f) for t, f in from_command_fns(prog).items())
+    cmds = {}
+    for ty, _, f in convs:
+        cmds.setdefault(ty, f)
     rep.floor('R1', 'command_conversions', len(cmds))
     argv_roles = {}     # struct -> {option: {role: (field, component, is element)}}
-    for ty, f in sorted(cmds.items()):
+    for ty, _, f in convs:
         rep.analysed(f)
         short = ty.split('::')[-1]
         program, items = H.argv_model(prog, sl, f)
@@ -208,8 +297,9 @@ def run(ctx, rep):
             rep.check(ok, 'R1', 'DockerExecCommand/first-word#%d' % n, site.where(), 'exec command starts with the constant launcher binary', 'docker exec command starts with %s' % vstr(strip(v))[:80])
             n += 1
     rep.check(bool(sites), 'R1', 'DockerExecCommand/sites', '-', '%d construction site(s)' % len(sites), 'no DockerExecCommand construction found')
-    forwarding(ctx, rep)
-    setters(ctx, rep, cmds, argv_roles)
+    S = Setters(prog, sl, argv_roles)
+    forwarding(ctx, rep, S)
+    setters(ctx, rep, cmds, argv_roles, S)
 
 
 def option_checks(rep, sl, f, short, items, argv_roles):
@@ -259,6 +349,12 @@ def option_checks(rep, sl, f, short, items, argv_roles):
         if fld not in flagged:
             flagged.add(fld)
             rep.violated('R8', '%s/%s' % (short, fld), where, 'the loop over %s can be left before all elements were emitted' % fld)
+    # an element of a collection is emitted only inside a loop over that collection (`if let Some(x) = xs.iter().next()`
+    # — or a loop body that always breaks — emits the first element only)
+    for fld, it in H.elements_outside_loop(sl, f, items):
+        if fld not in flagged:
+            flagged.add(fld)
+            rep.violated('R8', '%s/%s' % (short, fld), it.call.where(), 'an element of %s is emitted outside a loop over %s: only the first element reaches the command line' % (fld, fld))
     if short in CONFIG_OPTIONS and not flagged:
         rep.holds('R8', short, where, 'no contribution depends on the contents of a field; loops run to the end')
 
@@ -315,7 +411,47 @@ def _elementwise(E, sl, effs, cfg, fld, run, n_args):
     return True, 'every element of config.%s' % fld
 
 
-def forwarding(ctx, rep):
+class _AsParams:
+    """a Cfg in the role H.iter_source expects of the parameters of a setter"""
+
+    def __init__(self, cfg):
+        self.cfg = cfg
+
+    def exact(self, v):
+        return self.cfg.exact(v)
+
+    def mentioned(self, v):
+        return sorted(self.cfg.all_within(v))
+
+
+def _whole(sl, x, cfg, mapped):
+    """config field of which x hands over every element, unchanged and in order: the collection itself / an
+    iteration over it (H.whole_collection), or its pairs rebuilt component by component in the same order
+    (`.iter().map(|(k, v)| (k.clone(), v.clone()))`)"""
+    fld = H.whole_collection(sl, x, cfg, mapped)
+    if fld is None and not mapped:
+        p, projs, _ = H.iter_source(sl, x, _AsParams(cfg))
+        if p is not None and (projs is None or projs == [('0',), ('1',)]):
+            fld = p
+    return fld
+
+
+def _bulk(E, sl, e, cfg, fld, run, mapped=False):
+    """config.<fld> is forwarded whole: one call of a bulk setter (it stores every element of its iterable parameter,
+    in order — R6) that is handed the whole collection (elements unchanged unless `mapped`, none filtered, not
+    reordered), outside any loop, on every execution that gets to the command invocation"""
+    if len(e.args or ()) != 2:
+        return False, '%d argument(s)' % (len(e.args or ()) - 1)
+    if _whole(sl, strip(H.norm_iterable(e.args[1])), cfg, mapped) != fld:
+        return False, 'the argument %s is not the whole of config.%s' % (vstr(strip(e.args[1]))[:60], fld)
+    if H.loop_contexts(E, e):
+        return False, 'the bulk forwarding call is repeated in a loop'
+    if len(run) == 1 and not H.always_before(E, e, (len(H.levels(e)) - 1, None), run[0]):
+        return False, 'config.%s is not forwarded on every path to the command invocation' % fld
+    return True, 'the whole of config.%s' % fld
+
+
+def forwarding(ctx, rep, S):
     prog, sl = ctx.prog, ctx.slicer
     E = Effects(prog, sl, vocab=_vocab(prog))
     # ---- R3 container -------------------------------------------------------------------------------------
@@ -334,9 +470,11 @@ def forwarding(ctx, rep):
     scw = '%s:%d' % (sc.file, sc.line)
     run = by.get('FN:run_command', [])
     for fld, setter in CONTAINER_SETTERS.items():
-        cs = by.get('RUN:' + setter, [])
+        cs = S.feeding(effs, 'RUN:', setter, CONTAINER_TARGET[fld])
         ok = len(cs) == 1
         why = '%d call(s) of %s' % (len(cs), setter)
+        if ok:
+            setter = cs[0].kind[4:]
         if ok and ctys.get(fld, '').startswith('std::option::Option<'):
             src = cfg.within(cs[0].args[1]) if len(cs[0].args) > 1 else None
             # `if let Some(x) = &config.f` or `config.f.iter().for_each(..)`: no loop over anything else around it
@@ -351,6 +489,9 @@ def forwarding(ctx, rep):
                 extra = H.extra_conditions(E, sl, cs[0], cfg, fld)
                 if ok and extra:
                     ok, why = False, 'forwarded only when %s' % extra[0]
+        elif ok and S.bulk(cs[0]):
+            ok, why = _bulk(E, sl, cs[0], cfg, fld, run)
+            why = '%s -> %s(collection)' % (why, setter)
         elif ok:
             ok, why = _elementwise(E, sl, cs, cfg, fld, run, len(cs[0].args) - 1)
             why = '%s -> %s(element)' % (why, setter)
@@ -448,17 +589,25 @@ def forwarding(ctx, rep):
         rep.check(alive and not early, 'R4', 'copy-alive', cp[0].where(), 'the temporary copy is kept until pack has run',
                   'the temporary app copy is dropped (its directory deleted) before pack runs: %s' % (early or 'no owner of the copy outlives the pack run'))
     # env
-    envc = by.get('PACK:env', [])
-    ok, why = _elementwise(E, sl, envc, cfg, 'env', run, 2)
+    envc = S.feeding(effs, 'PACK:', 'env', BUILD_TARGET['env'])
+    if len(envc) == 1 and S.bulk(envc[0]):
+        ok, why = _bulk(E, sl, envc[0], cfg, 'env', run)
+    else:
+        ok, why = _elementwise(E, sl, envc, cfg, 'env', run, 2)
     seen.add('env')
-    rep.check(ok, 'R3', 'build/env', bw, 'every env pair -> pack_command.env(key, value)', 'BuildConfig.env is not forwarded pair by pair (%s)' % why)
+    rep.check(ok, 'R3', 'build/env', bw, '%s -> pack_command.%s' % (why, envc[0].kind[5:] + ('(collection)' if S.bulk(envc[0]) else '(key, value)')) if ok else '', 'BuildConfig.env is not forwarded pair by pair (%s)' % why)
     # buildpacks: every iteration over config.buildpacks hands one reference to pack_command.buildpack(..), whatever
     # the reference kind (the calls may sit in the arms of a match or take the result of a resolving helper)
-    bp = by.get('PACK:buildpack', [])
+    bp = S.feeding(effs, 'PACK:', 'buildpack', BUILD_TARGET['buildpacks'])
     variants = sorted(v['name'] for v in prog.adt('libcnb_test::build_config::BuildpackReference')['variants'])
     why = '%d forwarding call(s)' % len(bp)
     ok = bool(bp)
-    if ok:
+    bulk = len(bp) == 1 and S.bulk(bp[0])
+    if bulk:
+        # one call of a bulk setter that is handed `config.buildpacks.iter().map(resolve).collect()`: one value per
+        # configured reference (a mapping is total and keeps the order), whatever the reference kind
+        ok, why = _bulk(E, sl, bp[0], cfg, 'buildpacks', run, mapped=True)
+    elif ok:
         los = [_loop_of(E, sl, e, cfg, mapped=True) for e in bp]
         ok = all(lo is not None and lo[1] == 'buildpacks' for lo in los) and len({(lo[0][0], lo[0][1], id(lo[0][2])) for lo in los if lo}) == 1 \
             and all(len(H.loop_contexts(E, e)) == 1 for e in bp)
@@ -474,7 +623,11 @@ def forwarding(ctx, rep):
     # what is handed over: the configured reference itself, or the directory a packaging helper produced for it
     PKG = (FNS['package_crate_buildpack'], FNS['package_buildpack'])
     for i, e in enumerate(bp):
-        a = sl.inline_deep(e.args[1], keep=PKG) if len(e.args) > 1 else ('unknown', 'no argument')
+        a = e.args[1] if len(e.args) > 1 else ('unknown', 'no argument')
+        if bulk and ok:
+            al = iters.alts(sl, strip(H.norm_iterable(a)))
+            a = al[0][0] if len(al) == 1 else ('unknown', 'the elements of %s' % vstr(a)[:60])
+        a = sl.inline_deep(a, keep=PKG)
         verdicts = [H.buildpack_argument(sl, alt, cfg, PKG) for alt in H.alternatives(a, opaque=PKG)]
         bad = [v for v in verdicts if v[0] == 'bad']
         unk = [v for v in verdicts if v[0] == 'unknown']
@@ -519,7 +672,7 @@ def forwarding(ctx, rep):
     rep.check(len(run) == 1 and not H.loop_contexts(E, run[0]), 'R3', 'build/one-pack-invocation', bw, 'exactly one pack build invocation', '%d pack invocations' % len(run))
 
 
-def setters(ctx, rep, cmds, argv_roles):
+def setters(ctx, rep, cmds, argv_roles, S):
     """R6: what the setters / constructors of the configuration types and of the command structs store"""
     prog, sl = ctx.prog, ctx.slicer
     types = [(t, t.split('::')[-1], CONFIG_API[t], None) for t in (CC, BC)] + \
@@ -529,6 +682,7 @@ def setters(ctx, rep, cmds, argv_roles):
         adt = prog.adt(ty)
         ftys = {x['name']: x['ty'] for x in adt['variants'][0]['fields']}
         found = set()
+        roles_of = {}  # (option, roles, mode) -> a setter outside the API table that has exactly this role
         fill = {}      # field -> how the setters fill it ('add' | 'set')
         for f in H.carrier_methods(prog, ty):
             m = f.path.split('::')[-1]
@@ -538,7 +692,7 @@ def setters(ctx, rep, cmds, argv_roles):
                 rep.analysed(f)
                 n_setters += 1
                 found.add(m)
-                V = H.judge_setter(prog, sl, f)
+                V = S.verdict(f)
                 if V.ok is None:
                     rep.unproven('R6', subj, V.where, 'what %s stores could not be established: %s' % (subj, V.why))
                     continue
@@ -553,6 +707,17 @@ def setters(ctx, rep, cmds, argv_roles):
                                                     '' if V.order() == sorted(V.order()) else ' with key and value exchanged')
                     rep.check(ok, 'R6', subj + '/role', V.where, '%s: the field the test runner forwards' % why,
                               '%s must %s self.%s with its parameters in order, but %s' % (subj, {'set': 'replace', 'add': 'add to'}[mode], fld, why))
+                if kapi is not None and m not in kapi:
+                    # a setter outside the API table (a bulk variant, a renamed one): when the field it stores is
+                    # rendered as the value of an option that carries configuration, it is held to that option's
+                    # canonical roles — parameters / element components in the grammar's order, same mode
+                    r = derived_role(short, V, argv_roles)
+                    canon = CANON_ROLE.get(short, {}).get(r[0]) if r else None
+                    if canon is not None:
+                        roles_of[(r[0], tuple(r[1]), r[2])] = m
+                        rep.check((tuple(r[1]), r[2]) == canon, 'R6', subj + '/role', V.where,
+                                  '%s become the %s of %s' % ('the elements\' components' if r[3] else 'parameters', ' / '.join('<%s>' % x for x in r[1]) or 'words', r[0]),
+                                  '%s feeds %s as %s by %s, expected %s by %s' % (subj, r[0], list(r[1]), r[2], list(canon[0]), canon[1]))
                 if kapi is not None and m in kapi:
                     opt, rnames, mode = kapi[m]
                     if opt == 'command':
@@ -615,6 +780,12 @@ def setters(ctx, rep, cmds, argv_roles):
                       '%s initialises %s with contents nobody configured' % (subj, bad))
             rep.extra['constructor_defaults'][subj] = sorted(defaults)
         for m in sorted(set(capi or kapi or {}) - found):
+            api = (kapi or {}).get(m)
+            if kapi is not None and isinstance(api, tuple) and (api[0], tuple(api[1]), api[2]) in roles_of:
+                # the method is gone, its role is not: another setter (judged above: R6 stores, R6 role) feeds the
+                # option with the same parameters in the same order, and R3 demands that the configuration goes through it
+                rep.holds('R6', '%s::%s' % (short, m), '%s:%s' % (adt['file'], adt['line']), 'the role of %s::%s (%s) is taken by %s::%s' % (short, m, api[0], short, roles_of[(api[0], tuple(api[1]), api[2])]))
+                continue
             rep.unproven('R6', '%s::%s' % (short, m), '%s:%s' % (adt['file'], adt['line']), 'method %s::%s of the configuration API was not found' % (short, m))
     # hand-written wrapping conversions on the way (`impl Into<BuildpackReference>` arguments, the app directory): the
     # wrapped value is the argument itself
